@@ -7,7 +7,7 @@
    range yields [Oob] (this is how index safety is stated and how an out-of-range access of the
    C loop would show in the model).  Definitions only; lemmas are in Proofs/. *)
 From Coq Require Import ZArith List Bool FMapPositive.
-From Centro Require Import Base.Sx Base.ReconSort.
+From Centro Require Import Base.Sx Base.ReconSort Model.RankC18.
 Import ListNotations.
 Open Scope Z_scope.
 
@@ -137,21 +137,12 @@ Fixpoint link_pairs (l : list Z) (pn : arr * arr) : arr * arr :=
   | _ => pn
   end.
 
-(* rankorder.rank_order (nbins=None): returns (int_image, original_values) *)
-Definition rank_step (acc : Z * Z * list (Z * Z) * list Z) (vi : Z * Z) :=
-  let '(pv, r, ranks, orig) := acc in
-  let '(v, i) := vi in
-  if v =? pv then (v, r, (i, r) :: ranks, orig)              (* is_different false *)
-  else (v, r + 1, (i, r + 1) :: ranks, v :: orig).           (* cumsum(is_different) *)
-
+(* rankorder.rank_order (nbins=None) is the C18 model Model.RankC18.rank_order (line-level, proved
+   an order isomorphism in Proofs.RankC18Proofs); here only its result is packed into arrays:
+   returns (int_image, original_values) *)
 Definition rank_order (values : list Z) : arr * list Z :=
-  let sorted := AscSort.sort (combine values (zrange (zlen values))) in  (* argsort *)
-  match sorted with
-  | [] => (PositiveMap.empty Z, [])
-  | (v0, i0) :: rest =>
-      let '(_, _, ranks, orig) := fold_left rank_step rest (v0, 0, [(i0, 0)], [v0]) in
-      (fold_left (fun a ir => put a (fst ir) (snd ir)) ranks (PositiveMap.empty Z), rev orig)
-  end.
+  let rk := RankC18.rank_order values in
+  (of_list (map Z.of_nat (fst rk)), snd rk).
 
 Record prep : Type := mkprep {
   p_H : Z; p_W : Z; p_p0 : Z; p_p1 : Z; p_PW : Z; p_S : Z;
